@@ -132,7 +132,8 @@ TRIPLES_Q = [('Segment', 'Segment', 'Plane'), ('Line', 'Plane', 'Segment'), ('Se
              ('ConvexPolyhedron', 'Line', 'Plane'), ('ConvexPolyhedron', 'Segment', 'ConvexPolygon'), ('Segment', 'Segment', 'ConvexPolyhedron'),
              ('Line', 'Plane', 'ConvexPolygon'), ('Plane', 'Plane', 'ConvexPolyhedron'), ('HalfLine', 'Line', 'ConvexPolyhedron'),
              ('Plane', 'ConvexPolyhedron', 'Plane'), ('ConvexPolygon', 'ConvexPolygon', 'Line'), ('ConvexPolyhedron', 'ConvexPolygon', 'Line'),
-             ('ConvexPolygon', 'ConvexPolygon', 'Point', 2)]
+             ('ConvexPolygon', 'ConvexPolygon', 'Point', 2),
+             ('HalfLine', 'HalfLine', 'Segment', 0), ('HalfLine', 'Segment', 'Line', 0), ('Segment', 'HalfLine', 'HalfLine', 0)]
 
 
 def families(tier, seed):
@@ -156,9 +157,8 @@ def families(tier, seed):
 
 def _twin_point_plane():
     """mutant: intersection(Point, Plane) is always None"""
-    import sys as _sys
-    it = _sys.modules['Geometry3D.calc.intersection']
-    it.inter_point_plane = lambda pnt, pln: None
+    from .c01 import _wrap_public
+    _wrap_public('intersection', lambda a, b, r: None if (isinstance(a, Point) and isinstance(b, Plane)) else r)
 
 
 TWINS = {'intersection(Point, Plane) -> None': (r'^Point-Segment-Plane/', _twin_point_plane)}
